@@ -48,8 +48,8 @@ type caseSpec struct {
 type kindDef struct {
 	typ      reflect.Type
 	emb      bool
-	tagsOnly bool // C16: only the tag-keyed routes are in the Inverse domain (the tag of one member names another member)
-	val func(v string) any // nil result means the zero value of typ
+	tagsOnly bool               // C16: only the tag-keyed routes are in the Inverse domain (the tag of one member names another member)
+	val      func(v string) any // nil result means the zero value of typ
 }
 
 var fixedTime = time.Date(2021, 3, 4, 5, 6, 7, 123456789, time.UTC)
@@ -134,23 +134,31 @@ var kinds = map[string]kindDef{
 	"lstring": {typ: reflect.TypeOf(""), val: func(v string) any { return pick(v, "", strings.Repeat("long-string/", 100), "abc") }},
 	// []any (also as the top-level target) holding user struct pointers identified through the create key, directly and nested
 	"[]anyP": {typ: reflect.TypeOf([]any(nil)), val: func(v string) any {
-		return pick(v, []any(nil), []any{&enctypes.S1{Sa: 3, Sb: "x"}, []any{&enctypes.T{X: 4, Name: "t"}, "s"}, map[string]any{"k": &enctypes.S1{Sa: 5, Sb: "y"}}},
-			[]any{&enctypes.S1{}})
+		return pick(v, []any(nil), []any{&enctypes.S1{Sa: 3, Sb: "x"}, []any{&enctypes.T{X: 4, Name: "t"}, "s"}, map[string]any{"k": &enctypes.S1{Sa: 5, Sb: "y"}},
+			[]any{[]any{[]any{&enctypes.S1{Sa: 9, Sb: "d"}}}}}, []any{&enctypes.S1{}})
 	}},
 	"L1": {typ: reflect.TypeOf(enctypes.L1{}), val: func(v string) any {
 		return pick(v, enctypes.L1{}, enctypes.L1{
-			Items: []any{&enctypes.S1{Sa: 3, Sb: "x"}, []any{&enctypes.T{X: 4, Name: "t"}, "s"}, map[string]any{"k": &enctypes.S1{Sa: 5, Sb: "y"}}},
-			M:     map[string]any{"a": []any{&enctypes.S1{Sa: 1, Sb: "a"}}, "b": &enctypes.T{X: 2, Name: "b"}},
-			X:     []any{&enctypes.S1{Sa: 7, Sb: "z"}},
+			Items: []any{&enctypes.S1{Sa: 3, Sb: "x"}, []any{&enctypes.T{X: 4, Name: "t"}, "s"}, map[string]any{"k": &enctypes.S1{Sa: 5, Sb: "y"}},
+				[]any{[]any{[]any{&enctypes.S1{Sa: 9, Sb: "d"}}}, map[string]any{"m": []any{[]any{&enctypes.T{X: 8, Name: "n"}}}}}},
+			M: map[string]any{"a": []any{&enctypes.S1{Sa: 1, Sb: "a"}}, "b": &enctypes.T{X: 2, Name: "b"},
+				"c": map[string]any{"d": []any{[]any{&enctypes.S1{Sa: 6, Sb: "e"}}}}},
+			X: []any{&enctypes.S1{Sa: 7, Sb: "z"}},
 		}, enctypes.L1{Items: []any{&enctypes.S1{}}, X: &enctypes.T{X: 1}})
 	}},
 	// `,string` mixed with plain numeric / bool members; tags that name another member
-	"Str1": {typ: reflect.TypeOf(enctypes.Str1{}), val: func(v string) any { return pick(v, enctypes.Str1{}, enctypes.Str1{A: 1, B: 2.5, C: true, D: 5}, enctypes.Str1{D: 5}) }},
+	"Str1": {typ: reflect.TypeOf(enctypes.Str1{}), val: func(v string) any {
+		return pick(v, enctypes.Str1{}, enctypes.Str1{A: 1, B: 2.5, C: true, D: 5}, enctypes.Str1{D: 5})
+	}},
 	"Str2": {typ: reflect.TypeOf(enctypes.Str2{}), val: func(v string) any {
 		return pick(v, enctypes.Str2{}, enctypes.Str2{D: 5, A: 1, C: true, B: 2.5, E: 1.5, F: true}, enctypes.Str2{A: 1, B: 2.5})
 	}},
-	"Col1": {typ: reflect.TypeOf(enctypes.Col1{}), tagsOnly: true, val: func(v string) any { return pick(v, enctypes.Col1{}, enctypes.Col1{Kind: "k", Type: "t"}, enctypes.Col1{Type: "t"}) }},
-	"Col2": {typ: reflect.TypeOf(enctypes.Col2{}), tagsOnly: true, val: func(v string) any { return pick(v, enctypes.Col2{}, enctypes.Col2{Id: 1, Num: 2, Z: 3}, enctypes.Col2{Num: 2}) }},
+	"Col1": {typ: reflect.TypeOf(enctypes.Col1{}), tagsOnly: true, val: func(v string) any {
+		return pick(v, enctypes.Col1{}, enctypes.Col1{Kind: "k", Type: "t"}, enctypes.Col1{Type: "t"})
+	}},
+	"Col2": {typ: reflect.TypeOf(enctypes.Col2{}), tagsOnly: true, val: func(v string) any {
+		return pick(v, enctypes.Col2{}, enctypes.Col2{Id: 1, Num: 2, Z: 3}, enctypes.Col2{Num: 2})
+	}},
 	"Col3": {typ: reflect.TypeOf(enctypes.Col3{}), tagsOnly: true, val: func(v string) any {
 		return pick(v, enctypes.Col3{}, enctypes.Col3{Name: "n", Title: "t", Count: 1}, enctypes.Col3{Name: "n", Count: 2})
 	}},
@@ -167,9 +175,13 @@ var kinds = map[string]kindDef{
 	"[]M":           {typ: reflect.TypeOf([]enctypes.M1(nil)), val: func(v string) any { return sliceM(v) }},
 	"[]*M":          {typ: reflect.TypeOf([]*enctypes.M1(nil)), val: func(v string) any { return slicePM(v) }},
 	// named library types as field kinds
-	"T1":  {typ: reflect.TypeOf(enctypes.T{}), val: func(v string) any { return pick(v, enctypes.T{}, enctypes.T{X: 4, Name: "t"}, enctypes.T{X: 4}) }},
-	"T2":  {typ: reflect.TypeOf(enctypes2.T{}), val: func(v string) any { return pick(v, enctypes2.T{}, enctypes2.T{Y: "y", Flag: true}, enctypes2.T{Y: "y"}) }},
-	"*T2": {typ: reflect.TypeOf((*enctypes2.T)(nil)), val: func(v string) any { return pick(v, (*enctypes2.T)(nil), &enctypes2.T{Y: "y", Flag: true}, &enctypes2.T{}) }},
+	"T1": {typ: reflect.TypeOf(enctypes.T{}), val: func(v string) any { return pick(v, enctypes.T{}, enctypes.T{X: 4, Name: "t"}, enctypes.T{X: 4}) }},
+	"T2": {typ: reflect.TypeOf(enctypes2.T{}), val: func(v string) any {
+		return pick(v, enctypes2.T{}, enctypes2.T{Y: "y", Flag: true}, enctypes2.T{Y: "y"})
+	}},
+	"*T2": {typ: reflect.TypeOf((*enctypes2.T)(nil)), val: func(v string) any {
+		return pick(v, (*enctypes2.T)(nil), &enctypes2.T{Y: "y", Flag: true}, &enctypes2.T{})
+	}},
 	"U": {typ: reflect.TypeOf(enctypes.U{}), val: func(v string) any {
 		return pick(v, enctypes.U{}, enctypes.U{Ts: []enctypes.T{{X: 1, Name: "a"}, {}}, N: 2}, enctypes.U{Ts: []enctypes.T{}})
 	}},
@@ -182,16 +194,22 @@ var kinds = map[string]kindDef{
 	"Tagged": {typ: reflect.TypeOf(enctypes.Tagged{}), val: func(v string) any {
 		return pick(v, enctypes.Tagged{}, enctypes.Tagged{A: 1, B: "b", C: ip(2), D: true, F: 2.5, G: 3}, enctypes.Tagged{A: 1, C: ip(0)})
 	}},
-	"Unexp":  {typ: reflect.TypeOf(enctypes.Unexp{}), val: func(v string) any { return pick(v, enctypes.Unexp{}, enctypes.NewUnexp(3, "p"), enctypes.NewUnexp(0, "p")) }},
-	"Emb":    {typ: reflect.TypeOf(enctypes.Emb{}), val: func(v string) any { return pick(v, enctypes.Emb{}, enctypes.Emb{E1: enctypes.E1{Ea: 5, Eb: "e"}, Z: 1}, enctypes.Emb{Z: 1}) }},
-	"EmbPtr": {typ: reflect.TypeOf(enctypes.EmbPtr{}), val: func(v string) any { return pick(v, enctypes.EmbPtr{}, enctypes.EmbPtr{E1: &enctypes.E1{Ea: 5, Eb: "e"}, Z: 1}, enctypes.EmbPtr{E1: &enctypes.E1{}}) }},
-	"Simp":   {typ: reflect.TypeOf(enctypes.Simp{}), val: func(v string) any { return pick(v, enctypes.Simp{}, enctypes.Simp{N: 3}, enctypes.Simp{N: 3}) }},
-	"PSimp":  {typ: reflect.TypeOf(enctypes.PSimp{}), val: func(v string) any { return pick(v, enctypes.PSimp{}, enctypes.PSimp{N: 3}, enctypes.PSimp{N: 3}) }},
-	"Gen":    {typ: reflect.TypeOf(enctypes.Gen{}), val: func(v string) any { return pick(v, enctypes.Gen{}, enctypes.Gen{N: 3}, enctypes.Gen{N: 3}) }},
-	"JM":     {typ: reflect.TypeOf(enctypes.JM{}), val: func(v string) any { return pick(v, enctypes.JM{}, enctypes.JM{N: 3}, enctypes.JM{N: 3}) }},
-	"PJM":    {typ: reflect.TypeOf(enctypes.PJM{}), val: func(v string) any { return pick(v, enctypes.PJM{}, enctypes.PJM{N: 3}, enctypes.PJM{N: 3}) }},
-	"TM":     {typ: reflect.TypeOf(enctypes.TM{}), val: func(v string) any { return pick(v, enctypes.TM{}, enctypes.TM{N: 3}, enctypes.TM{N: 3}) }},
-	"MyInt":  {typ: reflect.TypeOf(enctypes.MyInt(0)), val: func(v string) any { return pick(v, enctypes.MyInt(0), enctypes.MyInt(7), enctypes.MyInt(7)) }},
+	"Unexp": {typ: reflect.TypeOf(enctypes.Unexp{}), val: func(v string) any {
+		return pick(v, enctypes.Unexp{}, enctypes.NewUnexp(3, "p"), enctypes.NewUnexp(0, "p"))
+	}},
+	"Emb": {typ: reflect.TypeOf(enctypes.Emb{}), val: func(v string) any {
+		return pick(v, enctypes.Emb{}, enctypes.Emb{E1: enctypes.E1{Ea: 5, Eb: "e"}, Z: 1}, enctypes.Emb{Z: 1})
+	}},
+	"EmbPtr": {typ: reflect.TypeOf(enctypes.EmbPtr{}), val: func(v string) any {
+		return pick(v, enctypes.EmbPtr{}, enctypes.EmbPtr{E1: &enctypes.E1{Ea: 5, Eb: "e"}, Z: 1}, enctypes.EmbPtr{E1: &enctypes.E1{}})
+	}},
+	"Simp":  {typ: reflect.TypeOf(enctypes.Simp{}), val: func(v string) any { return pick(v, enctypes.Simp{}, enctypes.Simp{N: 3}, enctypes.Simp{N: 3}) }},
+	"PSimp": {typ: reflect.TypeOf(enctypes.PSimp{}), val: func(v string) any { return pick(v, enctypes.PSimp{}, enctypes.PSimp{N: 3}, enctypes.PSimp{N: 3}) }},
+	"Gen":   {typ: reflect.TypeOf(enctypes.Gen{}), val: func(v string) any { return pick(v, enctypes.Gen{}, enctypes.Gen{N: 3}, enctypes.Gen{N: 3}) }},
+	"JM":    {typ: reflect.TypeOf(enctypes.JM{}), val: func(v string) any { return pick(v, enctypes.JM{}, enctypes.JM{N: 3}, enctypes.JM{N: 3}) }},
+	"PJM":   {typ: reflect.TypeOf(enctypes.PJM{}), val: func(v string) any { return pick(v, enctypes.PJM{}, enctypes.PJM{N: 3}, enctypes.PJM{N: 3}) }},
+	"TM":    {typ: reflect.TypeOf(enctypes.TM{}), val: func(v string) any { return pick(v, enctypes.TM{}, enctypes.TM{N: 3}, enctypes.TM{N: 3}) }},
+	"MyInt": {typ: reflect.TypeOf(enctypes.MyInt(0)), val: func(v string) any { return pick(v, enctypes.MyInt(0), enctypes.MyInt(7), enctypes.MyInt(7)) }},
 }
 
 // elements: full, bare (pointer / slice / map members absent), other full, bare again; every call builds fresh values
@@ -315,12 +333,13 @@ func buildValue(c *caseSpec) (rv reflect.Value, err error) {
 // ---------------------------------------------------------------- typed projection of a Go value (what EncTree reads)
 
 // tv nodes are records whose fields depend on g; the specification reads only the fields that exist for that g:
-//   bool int uint8 float string: s (canonical text), name (named scalar type or "")
-//   ptr iface: nil, a (the target as a 1-element list, empty when nil)
-//   slice: nil, byt, s, b64 (for []byte), a;  array: a;  map: nil, k (sorted keys), a
-//   struct: name, pkg, f (fields in declaration order);  time: s (unix nanos), nil (zero time)
-//   custom: how (jsonm textm simplifier genericer, "/ptr" when only the pointer type implements it), name, nil
-//   other: nothing
+//
+//	bool int uint8 float string: s (canonical text), name (named scalar type or "")
+//	ptr iface: nil, a (the target as a 1-element list, empty when nil)
+//	slice: nil, byt, s, b64 (for []byte), a;  array: a;  map: nil, k (sorted keys), a
+//	struct: name, pkg, f (fields in declaration order);  time: s (unix nanos), nil (zero time)
+//	custom: how (jsonm textm simplifier genericer, "/ptr" when only the pointer type implements it), name, nil
+//	other: nothing
 type tvNode map[string]any
 
 type tvField struct {
@@ -396,9 +415,9 @@ func project(rv reflect.Value) tvNode {
 		}
 		return tvNode{"g": g, "s": strconv.FormatUint(rv.Uint(), 10), "name": namedScalar(t)}
 	case reflect.Float32:
-		return tvNode{"g": "float", "s": canon32(float32(rv.Float())), "name": namedScalar(t)}
+		return tvNode{"g": "float", "s": canon32(float32(rv.Float())), "s64": canonFloat(rv.Float()), "name": namedScalar(t)}
 	case reflect.Float64:
-		return tvNode{"g": "float", "s": canonFloat(rv.Float()), "name": namedScalar(t)}
+		return tvNode{"g": "float", "s": canonFloat(rv.Float()), "s64": canonFloat(rv.Float()), "name": namedScalar(t)}
 	case reflect.String:
 		return tvNode{"g": "string", "s": rv.String(), "name": namedScalar(t)}
 	case reflect.Ptr, reflect.Interface:
